@@ -23,7 +23,8 @@ def scenario_ops(seed):
             dict(api='list', path='/d', entries=[[b'a'.hex(), 1, 2, 3], [b'bb'.hex(), 4, 5, 6]], cuts='small'),
             dict(api='pull', path='/p', size=9000, data_sizes=[4000, 4000, 1000], dest='bytesio'),
             dict(api='push', path='/q', size=9000, src='bytesio', mtime=7),
-            dict(api='streaming_shell', decode=False, cmd='top', chunks=[b'x'.hex()] * 3)]
+            dict(api='streaming_shell', decode=False, cmd='top', chunks=[b'x'.hex()] * 3),
+            dict(api='reboot')]
 
 
 def locks_free(sess):
@@ -50,6 +51,9 @@ def run_ops(sess, spec, args, rr, stop_on_exc):
         except transports.Watchdog as e:
             o = env.Outcome('exc', exc=e)
         extra = rr.extra.get('pulled', {}).get(i) if op['api'] == 'pull' else (bytes(sess.dev.fs.files.get('/q', {}).get('data', b'')) if op['api'] == 'push' else None)
+        if op['api'] == 'reboot':
+            # reboot() returns nothing: what counts is whether the request reached the device on the current connection
+            extra = any(st.dest.startswith(b'reboot:') for st in sess.dev.all_streams)
         outs.append((outcome_key(o, extra), locks_free(sess), o))
         if stop_on_exc and o.kind == 'exc':
             break
@@ -127,6 +131,65 @@ def fault_trace(mode, seed, faults, baseline, skip_close=False, wcap_seed=None, 
     return tr, fault
 
 
+def auth_connect_faults(ctx, mode):
+    """Faults inside an authenticated handshake (two keys rejected, the public key offered and accepted, auth_timeout_s=None): every
+    transport call of connect() x {timeout, reset, stalled call}.  A stalled call ends when its timeout expires; one issued without
+    a timeout never ends (NoHang).  Then close(), a healthy connect() and a command."""
+    class K(object):
+        def __init__(self, i):
+            self.i = i
+
+        def Sign(self, d):
+            return b's%d' % self.i + bytes(d)
+
+        def GetPublicKey(self):
+            return b'pub%d' % self.i
+
+    def make(fault):
+        dev = simdev.SimDevice(seed=ctx.seed)
+        dev.auth = simdev.AuthPolicy(mode='auth', maxdata=4096, accept_sig=lambda i, s_, t_: False, pubkey='accept')
+        dev.shell_scripts[b'shell:id'] = [b'uid=0']
+        sess = env.Session(mode, dev, fault=fault, tick=0.001, default_transport_timeout_s=None)
+        sess.core.max_calls = 5000
+        return dev, sess
+    kw = dict(rsa_keys=[K(1), K(2)], auth_timeout_s=None, read_timeout_s=2.0, transport_timeout_s=1.0)
+    dev, sess = make(transports.Fault())
+    o = sess.call('connect', **kw)
+    if o.kind != 'ret':
+        raise tlc.TlcError('the fault-free authenticated connect raises: %r' % o.exc)
+    ncalls = sess.core.ncalls
+    calls = list(sess.core.calls)
+    sess.close_loop()
+    traces, meta = [], []
+    for k in range(ncalls):
+        for kind in ('timeout', 'reset', 'wstall'):
+            if kind == 'wstall' and calls[k][0] not in ('bulk_write', 'connect'):
+                continue        # close() takes no timeout, and the wait for the user's confirmation is unbounded by request (auth_timeout_s=None)
+            fault = transports.Fault(at={k: kind})
+            dev, sess = make(fault)
+            tr = []
+            o = sess.call('connect', **kw)
+            hang = o.kind == 'exc' and o.exc_name in ('Watchdog', 'LockLeak')
+            tr.append(dict(ev='op', api='connect', outcome='hang' if hang else ('exc' if o.kind == 'exc' else ('same' if o.value is True else 'wrong')), locksFree=locks_free(sess), faulted=bool(fault.fired)))
+            if not hang:
+                try:
+                    oc = sess.call('close')
+                    ok = oc.kind == 'ret'
+                except transports.Watchdog:
+                    ok = False
+                tr.append(dict(ev='close', ok=bool(ok), locksFree=locks_free(sess), avail=bool(sess.device.available)))
+                dev.auth.accept_sig = lambda i, s_, t_: True
+                o2 = sess.call('connect', **kw)
+                tr.append(dict(ev='reconnect', ok=(o2.kind == 'ret' and o2.value is True), avail=bool(sess.device.available), locksFree=locks_free(sess), faulted=False))
+                if o2.kind == 'ret':
+                    o3 = sess.call('shell', 'id', decode=False, read_timeout_s=2.0)
+                    tr.append(dict(ev='op', api='shell', outcome='same' if (o3.kind == 'ret' and o3.value == b'uid=0') else ('exc' if o3.kind == 'exc' else 'wrong'), locksFree=locks_free(sess), faulted=False))
+            sess.close_loop()
+            traces.append(tr)
+            meta.append(dict(kind='fault in an authenticated connect (auth_timeout_s=None)', mode=mode, at={str(k): kind}, call=calls[k][0]))
+    return traces, meta
+
+
 def baseline_for(mode, seed):
     spec, dev, sess, rr, args, tr, outs, fault, ncalls = one_run(mode, seed, {})
     sess.call('close')
@@ -177,6 +240,9 @@ def body(ctx):
                     tr, fault = fault_trace(mode, ctx.seed, {ncalls + extra: kind}, base, skip_close=skip_close)
                     traces.append(tr)
                     meta.append(dict(kind='fault-in-recovery', mode=mode, at={str(ncalls + extra): kind}, recovery_without_close=skip_close))
+        t_a, m_a = auth_connect_faults(ctx, mode)
+        traces += t_a
+        meta += m_a
         if not ctx.quick:
             for _ in range(600):
                 k1 = rng.randrange(ncalls)
